@@ -42,7 +42,7 @@ class Matcher(object):
                 def ok(name, args, label, n, d, names=names, obs=obs, ev=ev):
                     if name not in names:
                         return False
-                    if ev['k'] == 'read' and args and args[0] != ev['n']:
+                    if ev['k'] in ('read', 'tread') and args and args[0] != ev['n']:
                         return False
                     st = self.project(self.g.nodes[d])
                     return all(st.get(k) == v for k, v in obs.items())
@@ -52,7 +52,16 @@ class Matcher(object):
                     T2 = self.succ(T, ok)
                     T = T | T2
             elif e == 'ret':
-                T = set(n for n in S if ret_ok(self.g.nodes[n], ev))
+                # steps of the model that are not system calls (pure computation) may precede the return
+                C = set(S)
+                frontier = list(S)
+                while frontier and self.silent:
+                    n = frontier.pop()
+                    for (name, args), label, d in self.parsed[n]:
+                        if name in self.silent and d not in C:
+                            C.add(d)
+                            frontier.append(d)
+                T = set(n for n in C if ret_ok(self.g.nodes[n], ev))
             else:
                 raise ValueError(e)
             if not T:
@@ -60,5 +69,6 @@ class Matcher(object):
             S = T
         return True, len(events), S
 
+    silent = ()
     obs_keys = ('lo', 'flagEof', 'terminated')
     chain_kinds = ('selectT',)
